@@ -19,10 +19,11 @@ const (
 	EvEnter
 	EvExit
 	EvCallback
+	EvNested // re-entrant user code: Exec = verdict of the nested Invoke, or -2 when the nested probe function ran
 )
 
 func (k EvKind) String() string {
-	return [...]string{"api-call", "api-return", "fn-enter", "fn-exit", "callback"}[k]
+	return [...]string{"api-call", "api-return", "fn-enter", "fn-exit", "callback", "nested"}[k]
 }
 
 type ExitKind int
@@ -128,6 +129,7 @@ type World struct {
 	catBind map[int]*Func
 
 	FaultsFired [4]int
+	HomeOf      map[int]int // fn id -> index of the scope it was provided to (set by the runner on accepted Provide)
 	Online      func(w *World, ev *Event) // optional hook run at fn-enter
 }
 
@@ -301,10 +303,13 @@ func FuncType(f *Func) reflect.Type {
 	if f.Variadic {
 		in = append(in, varType)
 	}
+	if f.HasErr && f.ErrFirst {
+		out = append(out, errType)
+	}
 	for _, r := range f.Results {
 		out = append(out, resultType(f, r, true))
 	}
-	if f.HasErr {
+	if f.HasErr && !f.ErrFirst {
 		out = append(out, errType)
 	}
 	return reflect.FuncOf(in, out, f.Variadic)
@@ -536,21 +541,72 @@ func (w *World) call(f *Func, ft reflect.Type, args []reflect.Value) []reflect.V
 		poison: fault != FaultNone, zero: fault == FaultErr}
 	nres := len(f.Results)
 	out := make([]reflect.Value, 0, nres+1)
+	off := 0
+	if f.HasErr && f.ErrFirst {
+		off = 1
+	}
 	for i, r := range f.Results {
-		out = append(out, w.buildResult(c, r, ft.Out(i), true))
+		out = append(out, w.buildResult(c, r, ft.Out(i+off), true))
 	}
 	res := OutOK
 	if f.HasErr {
+		ev := reflect.Zero(errType)
 		if fault != FaultNone {
-			out = append(out, reflect.ValueOf(w.injErr(f.ID, exec)).Convert(errType))
+			ev = reflect.ValueOf(w.injErr(f.ID, exec)).Convert(errType)
 			res = OutErr
-		} else {
-			out = append(out, reflect.Zero(errType))
 		}
+		if f.ErrFirst {
+			out = append([]reflect.Value{ev}, out...)
+		} else {
+			out = append(out, ev)
+		}
+	}
+	if f.Reenter && f.Role == RoleCtor && fault == FaultNone {
+		w.reenter(f)
 	}
 	w.Open = w.Open[:len(w.Open)-1]
 	w.emit(Event{Kind: EvExit, Fn: f.ID, Exec: exec, Out: res, Minted: c.minted})
 	return out
+}
+
+// reenter: re-entrant user code. The constructor's body asks the container (the
+// scope the constructor lives in) for its own first result while it is being
+// built. dig must answer with an error; it must never enter the constructor
+// again. The nested call's outcome is logged.
+func (w *World) reenter(f *Func) {
+	if w.HomeOf == nil {
+		return
+	}
+	home, ok := w.HomeOf[f.ID]
+	if !ok || home >= len(w.Scopes) {
+		return
+	}
+	lr := f.LeafResults()
+	if len(lr) == 0 || len(lr[0].Keys) == 0 {
+		return
+	}
+	k := lr[0].Keys[0]
+	var p Param
+	switch {
+	case k.IsGroup():
+		p = Param{Kind: PObj, Fields: []Param{{Kind: PGroup, T: k.T, Group: k.Group}}}
+	case k.Name != "":
+		p = Param{Kind: PObj, Fields: []Param{{Kind: PSingle, T: k.T, Name: k.Name}}}
+	default:
+		p = Param{Kind: PSingle, T: k.T}
+	}
+	probe := reflect.MakeFunc(reflect.FuncOf([]reflect.Type{paramType(p, true)}, nil, false), func([]reflect.Value) []reflect.Value {
+		w.emit(Event{Kind: EvNested, Fn: f.ID, Exec: -2})
+		return nil
+	}).Interface()
+	err, facts := w.guard(func() error { return w.Scopes[home].Invoke(probe) })
+	_ = err
+	nv := verdictOf(facts)
+	w.emit(Event{Kind: EvNested, Fn: f.ID, Exec: int(nv)})
+	// guard() clears the open stack when a panic escaped; restore ours
+	if facts.Escaped {
+		w.Open = append(w.Open, f.ID)
+	}
 }
 
 func (w *World) callback(fn int) dig.Callback {
